@@ -712,6 +712,155 @@ func c14(c *Ctx) {
 		pooledEscapes(w, r, "pool-escape:")
 	})
 
+	c.Rule("C14.R4b", "codec framing on every path and level: a compressor hands its output writer only to the codec's constructor and its input only to the codec's Write, and returns success only after Write and Close; a decompressor reads its input only through the codec's reader", 8, func(r *Rule) {
+		type spec struct {
+			fn, ctor string
+			comp     bool
+		}
+		for _, sp := range []spec{
+			{"CompressWithZlib", "compress/zlib.NewWriterLevel", true},
+			{"CompressWithLz4", "github.com/pierrec/lz4/v4.NewWriter", true},
+			{"DecompressWithZlib", "compress/zlib.NewReader", false},
+			{"DecompressWithLz4", "github.com/pierrec/lz4/v4.NewReader", false},
+		} {
+			fn := w.Func("pkg/web", sp.fn)
+			if fn == nil {
+				r.Unresolved("pkg/web." + sp.fn)
+				continue
+			}
+			c.SawFunc(FuncName(fn))
+			ctors := callsTo(fn, sp.ctor)
+			if !r.Check(sp.fn+":codec-constructor", len(ctors) == 1, fn.Pos(), fmt.Sprintf("%d calls of %s", len(ctors), sp.ctor)) {
+				continue
+			}
+			ctor := ctors[0].(*ssa.Call)
+			if !sp.comp {
+				// input -> bytes.NewReader -> ctor, and nothing else
+				in := fn.Params[0]
+				okIn := true
+				var why []string
+				for _, ref := range referrers(in) {
+					switch x := ref.(type) {
+					case *ssa.DebugRef:
+					case *ssa.Call:
+						if !isCall(x, "bytes.NewReader") {
+							okIn = false
+							why = append(why, exprString(x, 0))
+							continue
+						}
+						// the reader goes to the constructor only
+						for _, r2 := range referrers(x) {
+							if mi, ok := r2.(*ssa.MakeInterface); ok {
+								for _, r3 := range referrers(mi) {
+									if r3 != ssa.Instruction(ctor) {
+										okIn = false
+										why = append(why, "reader used by "+r3.String())
+									}
+								}
+							} else if _, isDbg := r2.(*ssa.DebugRef); !isDbg {
+								okIn = false
+								why = append(why, "reader used by "+r2.String())
+							}
+						}
+					default:
+						okIn = false
+						why = append(why, ref.String())
+					}
+				}
+				r.Check(sp.fn+":input-only-through-codec", okIn, fn.Pos(), "the compressed input is read only through the codec's reader"+map[bool]string{true: "", false: ": " + strings.Join(why, "; ")}[okIn])
+				continue
+			}
+			in, out := fn.Params[0], fn.Params[1]
+			// out: only the constructor's argument
+			okOut := true
+			var why []string
+			for _, ref := range referrers(out) {
+				switch ref.(type) {
+				case *ssa.DebugRef:
+				default:
+					if ref != ssa.Instruction(ctor) {
+						okOut = false
+						why = append(why, ref.String()+" at "+w.Prog.Fset.Position(ref.Pos()).String())
+					}
+				}
+			}
+			r.Check(sp.fn+":output-only-through-codec", okOut, fn.Pos(), "the output writer is handed only to the codec constructor (no raw write)"+map[bool]string{true: "", false: ": " + strings.Join(why, "; ")}[okOut])
+			// in: only the codec's Write
+			okIn := true
+			why = nil
+			var writes []ssa.Instruction
+			for _, ref := range referrers(in) {
+				switch x := ref.(type) {
+				case *ssa.DebugRef:
+				case ssa.CallInstruction:
+					if strings.HasSuffix(calleeName(x), ".Write") && recvOf(x) != nil && derivesFromCall(recvOf(x), ctor) {
+						writes = append(writes, ref)
+					} else {
+						okIn = false
+						why = append(why, calleeName(x))
+					}
+				default:
+					okIn = false
+					why = append(why, ref.String())
+				}
+			}
+			r.Check(sp.fn+":input-only-to-codec-write", okIn && len(writes) == 1, fn.Pos(), fmt.Sprintf("the payload is written only to the codec (%d writes)", len(writes))+map[bool]string{true: "", false: ": " + strings.Join(why, "; ")}[okIn])
+			// success only after Write and Close
+			const (
+				evWrite = iota
+				evClose
+			)
+			res := runAutomaton(fn, 0, func(i ssa.Instruction) int {
+				cl, ok := i.(ssa.CallInstruction)
+				if !ok || recvOf(cl) == nil || !derivesFromCall(recvOf(cl), ctor) {
+					return -1
+				}
+				if _, isDefer := i.(*ssa.Defer); isDefer {
+					return -1
+				}
+				switch {
+				case strings.HasSuffix(calleeName(cl), ".Write"):
+					return evWrite
+				case strings.HasSuffix(calleeName(cl), ".Close"):
+					return evClose
+				}
+				return -1
+			}, func(st, ev int) int {
+				switch {
+				case ev == evWrite && st == 0:
+					return 1
+				case ev == evClose && st == 1:
+					return 2
+				case ev == evClose:
+					return 3 // closed without a write
+				}
+				return st
+			})
+			okSucc := true
+			for b, states := range res.ExitStates {
+				ret := b.Instrs[len(b.Instrs)-1].(*ssa.Return)
+				if len(ret.Results) == 1 && isNilConst(ret.Results[0]) && states != 1<<2 {
+					okSucc = false
+				}
+			}
+			r.Check(sp.fn+":success-after-write-and-close", okSucc, fn.Pos(), "every path returning nil has written the payload to the codec and closed it")
+		}
+	})
+
+	c.Rule("C14.R7", "what is encoded once is what every delivery attempt sends: the forwarder's per-attempt closure builds a fresh reader over the encoded body and assigns no captured variable", 2, func(r *Rule) {
+		n := 0
+		for _, g := range attemptClosures(w) {
+			if fnPkgPath(g) != Mod+"/pkg/statsd" {
+				continue
+			}
+			n++
+			c.SawFunc(FuncName(g))
+			attemptFreshBody(r, g)
+			attemptIdempotent(r, g)
+		}
+		r.Check("forwarder:attempt-closure-found", n >= 1, token.NoPos, fmt.Sprintf("%d per-attempt request closures in pkg/statsd", n))
+	})
+
 	c.Rule("C14.R5", "a body that cannot be read, decompressed or decoded is answered with one status and dispatches nothing", 10, func(r *Rule) {
 		mh := w.Func("pkg/web", "(*rawHttpHandlerV2).MetricHandler")
 		eh := w.Func("pkg/web", "(*rawHttpHandlerV2).EventHandler")
@@ -867,4 +1016,42 @@ func zeroConstOf(n *types.Named) string {
 		}
 	}
 	return ""
+}
+
+// derivesFromCall: v is the call's result, an extract of it, or a phi/load thereof.
+func derivesFromCall(v ssa.Value, call *ssa.Call) bool {
+	seen := map[ssa.Value]bool{}
+	var walk func(v ssa.Value, d int) bool
+	walk = func(v ssa.Value, d int) bool {
+		if d > 8 || seen[v] {
+			return false
+		}
+		seen[v] = true
+		switch x := v.(type) {
+		case *ssa.Call:
+			return x == call
+		case *ssa.Extract:
+			return walk(x.Tuple, d+1)
+		case *ssa.Phi:
+			for _, e := range x.Edges {
+				if walk(e, d+1) {
+					return true
+				}
+			}
+		case *ssa.UnOp:
+			if al, ok := x.X.(*ssa.Alloc); ok {
+				for _, ref := range referrers(al) {
+					if st, ok := ref.(*ssa.Store); ok && st.Addr == ssa.Value(al) && walk(st.Val, d+1) {
+						return true
+					}
+				}
+			}
+		case *ssa.MakeInterface:
+			return walk(x.X, d+1)
+		case *ssa.ChangeInterface:
+			return walk(x.X, d+1)
+		}
+		return false
+	}
+	return walk(v, 0)
 }
